@@ -181,3 +181,42 @@ func VP_C16_cmd() {
 	}
 	vp.Cover("end")
 }
+
+// values read earlier stay what they were: the payloads of several frames read
+// through one RCONConn are compared after all of them were read (no aliasing of
+// a reused read buffer), and commands collected by a server likewise.
+func VP_C16_held() {
+	a, b := vpPipe()
+	w := &RCONConn{Conn: a}
+	p1 := vp.Bytes(1 + vp.Choice(3))
+	p2 := vp.Bytes(1 + vp.Choice(3))
+	p3 := vp.Bytes(1 + vp.Choice(2))
+	vp.Assert(w.WritePacket(1, 2, string(p1)) == nil && w.WritePacket(2, 2, string(p2)) == nil && w.WritePacket(3, 2, string(p3)) == nil, "WritePacket")
+	r := &RCONConn{Conn: b}
+	_, _, g1, e1 := r.ReadPacket()
+	_, _, g2, e2 := r.ReadPacket()
+	_, _, g3, e3 := r.ReadPacket()
+	vp.Assert(e1 == nil && e2 == nil && e3 == nil, "ReadPacket err==nil")
+	vp.Assert(g1 == string(p1) && g2 == string(p2) && g3 == string(p3), "payload round trip (held past later reads)")
+	vp.Cover("end")
+}
+
+// a write that failed leaves nothing behind: after WritePacket reported an
+// error (the connection refused all or part of the frame once), the next
+// successful WritePacket puts exactly its own frame on the wire.
+func VP_C16_write_history() {
+	c := &vpFaultConn{failAt: -1, wlimit: vp.Choice(3)} // accepts 0..2 bytes, then fails
+	w := &RCONConn{Conn: c}
+	vp.Assert(w.WritePacket(vp.Int32(), 2, string(vp.Bytes(2))) != nil, "write failure is reported")
+	c.out, c.wlimit = nil, -1 // the connection recovers (a deadline was extended)
+	id, payload := vp.Int32(), vp.Bytes(vp.Choice(3))
+	vp.Assert(w.WritePacket(id, 2, string(payload)) == nil, "WritePacket err==nil")
+	var ref []byte
+	ref = append(ref, vpLE32(uint32(4+4+len(payload)+2))...)
+	ref = append(ref, vpLE32(uint32(id))...)
+	ref = append(ref, vpLE32(2)...)
+	ref = append(ref, payload...)
+	ref = append(ref, 0, 0)
+	vp.Assert(string(c.out) == string(ref), "frame bytes == little-endian reference layout (after an earlier failed write)")
+	vp.Cover("end")
+}
